@@ -77,3 +77,5 @@ pub mod u_chan;
 pub mod u_phase;
 pub mod w_loop;
 pub mod g_glue;
+pub mod u_subs;
+pub mod g_effects;
